@@ -108,6 +108,7 @@ def edge_class(src, dst):
            str(ev['k']), str(ev['x']), str(ev['m']), str(ev['out']), str(ev['step']), str(_at(src['mode'], s)),
            bool(_at(src['imm'], s)), bool(_at(src['touched'], s)),
            'mine' if holder == s else ('free' if holder == 0 else 'other'), len(src['waiting']),
+           int(src['preHolder']) == s, int(src['preHolder']) != 0,
            bool(_at(src['collFull'], s)),
            tuple(sorted(str(x) for x in _at(src['status'], s)))]
     if o:
